@@ -17,6 +17,11 @@ CLAIMS = {
         "Decides structural necessary conditions only: dropper pairing, remove destroys once / remove_unpin forgets, double-remove guard, paired counters updated once per path after user code, vacancy bookkeeping never skipped, into_parts forget discipline, single removal authority, Slab::drop policy order, shrink keeps live slabs. It does not decide len/iteration agreement over all histories.",
         "Trusted: rustc nightly MIR (elaborated drops), factgen extraction, rule tables in vf/props/c02.py (removal-authority table).",
         "DESIGN.md section 3, C02"),
+    "C03": (
+        "trait-obligation matrix evaluated by rustc's trait solver on a user-style probe crate (factgen driver answers type_implements_trait for every handle x payload class), checked against a soundness rule; unsafe-impl census from impl facts; struct-field ownership facts; who-may-call on removal",
+        "Decides the 'safe programs' clause (which handle types are Send/Sync/Clone/Deref(Mut) for which payload classes - for all instantiations of those classes, by construction of the trait solver) and the structural clauses: unsafe-impl census, storage kept alive by type, T: Send on every safe insertion API, single remover. The 16 matrix rows violating the rule on the pinned tree are one genuine defect (SlabHandle<T>: Sync without T: Sync), reproduced by a safe program per row and listed as known findings. Exactly-once destruction and quiescent len under all interleavings are not decided.",
+        "Trusted: rustc nightly trait solver, the probe crate's payload classes, the soundness rule and the justified unsafe-impl table in vf/props/c03.py.",
+        "DESIGN.md section 3, C03"),
     "C04": (
         "guard-liveness dataflow on elaborated MIR x interprocedural user-code classification (type-erased dropper, closure parameters tracked parametrically, drop glue of local types), catch_unwind containment, split-update detection",
         "Decides the repository's own callback-safety rule structurally: no user code under a live pool guard (re-entry), none uncontained under a MutexGuard (poisoning), no persistent writes on both sides of a may-unwind user point, restore-before-destroy in Slab::remove, closures of the thread-safe entry points confined to catch_unwind with the guard released before resume_unwind. The 25 sites violating R1-R3 on the pinned tree are genuine reproduced defects listed as known findings; any other site is a VIOLATION. That the pool still works after every fault sequence is not decided.",
